@@ -4,7 +4,8 @@
 (* indices of the containers read right after the operation), then - when e.laid = 1 - a        *)
 (* rendering, then e.post (the node table).  e.pendpre / e.pend: the ListBoxes with a focus     *)
 (* change pending before the key / at the instant of e.foc; e.firstpre / e.pendfirst: those     *)
-(* never laid out at these two instants.                                                        *)
+(* never laid out at these two instants.  e.moves: every Columns.move_cursor_to_coords call    *)
+(* made by the operation and the layout after it (FocusTreeOps!MoveOk).                         *)
 (* The predicates are those of FocusTreeOps, the same the model FocusTree.tla is checked        *)
 (* against.  e.soft # "": the rendering (or the key / press itself) raised - recorded as a      *)
 (* divergence (rendering is C01's business); what a completed layout or call would have left    *)
@@ -26,6 +27,7 @@ Verdict(e) ==
   ELSE IF e.t = "key" /\ e.soft = "" /\ ~UnhandledComesBack(e.pre, e.pendpre, e.key, e.ate, e.ret) THEN "unhandled_key_returned_unchanged"
   ELSE IF e.t = "key" /\ e.soft = "" /\ ~KeyMovesOnlyNavigators(e.pre, e.post, e.pendpre \o e.pend, e.firstpre \o e.pendfirst, e.key) THEN "key_moves_focus_only_where_it_navigates"
   ELSE IF e.t = "key" /\ e.key \in Arrows /\ e.samestruct = 1 /\ ~ArrowOnlyToSelectable(e.pre, e.post, e.short = 1) THEN "arrow_moves_focus_only_to_selectable"
+  ELSE IF e.soft = "" /\ ~MovesOk(e.moves) THEN "cursor_sent_into_columns_lands_on_the_column_at_the_coords"
   ELSE IF e.t = "setcontents" /\ ~SelectableIffChild(e.post, e.target) THEN "selectable_iff_a_child_is_after_contents_set"
   ELSE IF ~(SeqSet(e.rfocus) \subseteq FocusPath(e.post)) THEN "only_focus_path_rendered_with_focus"
   ELSE IF e.t = "setfocus" /\ e.want >= 0 /\ e.exc = "" /\ e.soft = "" /\ ~AssignmentTakesEffect(e.foc, e.post, e.pend, e.target, e.want) THEN "focus_assignment_takes_effect"
